@@ -492,10 +492,22 @@ func (fr *Frame) havocForCall(c *Contract, fn *ssa.Function, key string, names m
 		}
 		touched[h] = true
 	}
+	ev := &allocEvent{bound: allocBefore, trans: map[string][2]string{}, modified: map[string]bool{}}
+	defer func() {
+		if len(ev.trans) > 0 {
+			ev.nfacts = len(vc.facts)
+			ev.cur = map[string]string{}
+			for h, t := range fr.st.heaps {
+				ev.cur[h] = t
+			}
+			vc.allocEvents = append(vc.allocEvents, ev)
+		}
+	}()
 	for _, h := range sortedKeys(touched) {
 		old := vc.heapGet(fr.st, h)
 		if wholeHeap[h] {
 			vc.heapHavoc(fr.st, h)
+			ev.modified[h] = true
 			continue
 		}
 		nw := vc.heapHavoc(fr.st, h)
@@ -503,8 +515,15 @@ func (fr *Frame) havocForCall(c *Contract, fn *ssa.Function, key string, names m
 			if _, isDecl := declared[h]; !isDecl {
 				// globals are only changed when declared
 				vc.fact(eq(nw, old))
+			} else {
+				ev.modified[h] = true
 			}
 			continue
+		}
+		if len(declared[h]) == 0 {
+			ev.trans[h] = [2]string{old, nw}
+		} else {
+			ev.modified[h] = true
 		}
 		// objects existing before the call and not declared keep their slot
 		var excl []string
